@@ -93,6 +93,23 @@ var c15Leaves = []devLeaf{
 		return [](*sdcpb.TypedValue){tvLL("a"), tvLL("a", "b"), tvLL("b", "a")}[i%3]
 	}},
 	{"/ifx", func(i int) *sdcpb.TypedValue { return strTv([]string{"s", "t", "u"}[i%3]) }},
+	{"/types/idref", func(i int) *sdcpb.TypedValue {
+		id := []string{"id-one", "id-two", "id-three"}[i%3]
+		return &sdcpb.TypedValue{Value: &sdcpb.TypedValue_IdentityrefVal{IdentityrefVal: &sdcpb.IdentityRef{Value: id, Prefix: model.IdentityModule[id], Module: model.IdentityModule[id]}}}
+	}},
+	{"/types/i64", func(i int) *sdcpb.TypedValue {
+		return &sdcpb.TypedValue{Value: &sdcpb.TypedValue_IntVal{IntVal: []int64{-9223372036854775808, -1, 9223372036854775807}[i%3]}}
+	}},
+	{"/types/ll-u64", func(i int) *sdcpb.TypedValue {
+		mk := func(vs ...uint64) *sdcpb.TypedValue {
+			arr := &sdcpb.ScalarArray{}
+			for _, v := range vs {
+				arr.Element = append(arr.Element, tvU(v))
+			}
+			return &sdcpb.TypedValue{Value: &sdcpb.TypedValue_LeaflistVal{LeaflistVal: arr}}
+		}
+		return [](*sdcpb.TypedValue){mk(1), mk(1, 18446744073709551615), mk(18446744073709551615, 1)}[i%3]
+	}},
 }
 
 type devMsg struct {
